@@ -1,4 +1,5 @@
 // map.cpp — correspondence harness for MappedPGMIndex (MAP cases): the three constructors, file bytes, queries.
+#include <deque>
 #include "common.hpp"
 #include <sys/mman.h>
 #include <sys/stat.h>
@@ -46,7 +47,11 @@ static void run_map(const std::vector<std::vector<std::string>> &sec, std::ostre
         if (ncase % 3 != 2) stale(fb);
     }
     try {
-        Index a(data.begin(), data.end(), fa);
+        // every other case builds from a NON-contiguous random-access range (std::deque): the range constructor must read
+        // the keys through the iterators, not assume one block of memory
+        static size_t nrange = 0; ++nrange;
+        std::deque<K> dq(data.begin(), data.end());
+        Index a = (nrange % 2) ? Index(dq.begin(), dq.end(), fa) : Index(data.begin(), data.end(), fa);
         out << "BA ok\nFA " << file_hex(fa) << "\n";
         queries_on<Index, K>(a, queries, data, "A", out);
     } catch (const std::exception &e) { out << "BA throw " << exn_kind(e) << "\n"; unlink(fa.c_str()); }
